@@ -35,7 +35,8 @@ class Ctx:
         self.deadline = None
 
     def scale(self, quick, thorough):
-        return thorough if self.tier == 'thorough' else quick
+        # quick tier on a tree whose source differs from the validated baseline: 4x the quick budget (capped by the thorough one)
+        return common.scaled(self.tier, quick, thorough)
 
     def driver(self, lines):
         return common.run_driver(lines)
@@ -246,6 +247,8 @@ def run(plugin, prop, tier, seed, t0):
         'observations': res.get('observations', []),
         'leanchecker': leanchecker,
         'notes': notes,
+        'source_files_differing_from_validated_baseline': common.source_changed(),
+        'budget': 'quick x4 (source differs from the validated baseline)' if (tier == 'quick' and common.source_changed()) else tier,
     })
     if covd['discharged'] == 0:
         # schema: a proof-level file needs discharged >= 1; with nothing discharged fall back to the generic keys
